@@ -91,6 +91,11 @@ CLAIMS = {
              "the nil value returned with a possibly-nil error through a contracted callee in all 720 trigger orders, whichever inference round incorporates the value result.",
         note="Partial: package-level filtering only; return-expression classification and caller-side guards are outside. Found and fixed (fix: commit): controlled triggers were forgotten between the two rounds.",
     ),
+    "C07": dict(
+        text="For every failure behaviour of a wrapped sub-analyzer and of the top-level analyzer (all panic kinds, errors, missing or ill-typed results) and all analyzer names / messages (symbolic), "
+             "no panic escapes: it becomes Result.Err (resp. one diagnostic at a valid position) carrying the INTERNAL PANIC prefix and the panic value; returned errors are wrapped, not lost.",
+        note="Partial: the containment clause only. Totality for every package (termination, no internal error at all) is outside this technique; see evidence.coverage.outside_bounds.",
+    ),
 }
 
 # reasons for every property not (yet) claimed
@@ -99,5 +104,5 @@ NOT_APPLICABLE = {
     "C16": "The quantifier is goroutine interleavings over the whole analysis heap; symx has no thread model and no installed solver-based engine explores Go schedules.",
     "C18": "Everything the property depends on is environment (process cwd captured at init, filepath.Rel, driver cwd); after stubbing those by contract the residual repo code is a one-line wrapper.",
 }
-for _p in ["C07", "C14", "C20"]:
+for _p in ["C14", "C20"]:
     NOT_APPLICABLE.setdefault(_p, "kernel check not yet registered (in progress; see DESIGN.md section 4)")
